@@ -475,6 +475,17 @@ var TableThCellAttributeFilter = html.GlobalAttributeFilter.ExtendString(`abbr,a
 //   - width:  Deprecated since HTML4. Obsolete since HTML5.
 var TableTdCellAttributeFilter = html.GlobalAttributeFilter.ExtendString(`abbr,align,axis,bgcolor,char,charoff,colspan,headers,height,rowspan,scope,valign,width`) // nolint: lll
 
+var styleAttributeName = []byte("style")
+
+// exceptStyleFilter is a util.BytesFilter that does not contain 'style'.
+type exceptStyleFilter struct {
+	util.BytesFilter
+}
+
+func (f exceptStyleFilter) Contains(b []byte) bool {
+	return !bytes.Equal(b, styleAttributeName) && (f.BytesFilter == nil || f.BytesFilter.Contains(b))
+}
+
 func (r *TableHTMLRenderer) renderTableCell(
 	w util.BufWriter, source []byte, node gast.Node, entering bool) (gast.WalkStatus, error) {
 	n := node.(*ast.TableCell)
@@ -484,6 +495,7 @@ func (r *TableHTMLRenderer) renderTableCell(
 	}
 	if entering {
 		_, _ = fmt.Fprintf(w, "<%s", tag)
+		styleRendered := false
 		if n.Alignment != ast.AlignNone {
 			amethod := r.TableConfig.TableCellAlignMethod
 			if amethod == TableCellAlignDefault {
@@ -507,15 +519,22 @@ func (r *TableHTMLRenderer) renderTableCell(
 				}
 				style := fmt.Sprintf("text-align:%s", n.Alignment.String())
 				cob.AppendString(style)
-				n.SetAttributeString("style", cob.Bytes())
+				// The node must not be modified: it may be rendered again.
+				_, _ = w.WriteString(` style="`)
+				_, _ = w.Write(util.EscapeHTML(cob.Bytes()))
+				_ = w.WriteByte('"')
+				styleRendered = true
 			}
 		}
 		if n.Attributes() != nil {
+			filter := TableThCellAttributeFilter // <th>
 			if tag == "td" {
-				html.RenderAttributes(w, n, TableTdCellAttributeFilter) // <td>
-			} else {
-				html.RenderAttributes(w, n, TableThCellAttributeFilter) // <th>
+				filter = TableTdCellAttributeFilter // <td>
 			}
+			if styleRendered {
+				filter = exceptStyleFilter{filter}
+			}
+			html.RenderAttributes(w, n, filter)
 		}
 		_ = w.WriteByte('>')
 	} else {
